@@ -248,6 +248,7 @@ theorem define_parts {env : List OType} {d : Def} {t : OType} (h : define env d 
       checkEquality attrs (parentOf env d) (d.equality.toList?.getD []) = .ok () ∧
       checkSerialization attrs (parentOf env d) false [] (d.serialization.getD []) = .ok () ∧
       defineFuncs (parentOf env d) (d.attrs.map (·.name)) d.funcs = .ok () ∧
+      (∀ n ∈ d.equality.toList?.getD [] ++ d.serialization.getD [], isFnName attrs d.funcs (parentOf env d) n = false) ∧
       t = { id := env.length, attrs := attrs, equality := d.equality.toList?,
             includeType := d.includeType.getD true, serialization := d.serialization, params := d.params,
             funcs := d.funcs } ::
@@ -270,16 +271,22 @@ theorem define_parts {env : List OType} {d : Def} {t : OType} (h : define env d 
       | error c => simp [hfn] at h
       | ok u0 =>
       simp only [hfn] at h
-      cases he : checkEquality attrs parent (d.equality.toList?.getD []) with
+      cases he : checkEqualityF attrs d.funcs parent (d.equality.toList?.getD []) with
       | error c => simp [he] at h
       | ok u =>
         simp only [he] at h
-        cases hs : checkSerialization attrs parent false [] (d.serialization.getD []) with
+        cases hs : checkSerializationF attrs d.funcs parent (d.serialization.getD []) with
         | error c => simp [hs] at h
         | ok u' =>
           simp only [hs] at h
           cases h
-          exact ⟨attrs, rfl, he, hs, rfl, rfl⟩
+          obtain ⟨he1, he2⟩ := checkEqualityF_ok he
+          obtain ⟨hs1, hs2⟩ := checkSerializationF_ok hs
+          refine ⟨attrs, rfl, he2, hs2, rfl, ?_, rfl⟩
+          intro n hn
+          rcases List.mem_append.mp hn with hn | hn
+          · exact he1 n hn
+          · exact hs1 n hn
 
 theorem typeDef_noBoth {as : List Attr} (hnd : (as.map (·.name)).Nodup) (parent : Option Nat) (l : Level)
     (hl : l.attrs = as) :
@@ -337,7 +344,7 @@ theorem define_typeDef {env : List OType} {d : Def} {l : Level} {p : OType} (hnd
     (hu : ∀ a ∈ l.attrs, a.undefConstant = false)
     (hfk : ∀ f ∈ l.funcs, ∀ a ∈ l.attrs, a.name = f.name → a.constLike = true) :
     define env (typeDef d.parent l) = .ok ({ l with attrs := reorder l.attrs } :: p) := by
-  obtain ⟨hpar, hboth, attrs, hattrs, heq, hser, hfn, ht⟩ := define_parts h
+  obtain ⟨hpar, hboth, attrs, hattrs, heq, hser, hfn, hnf, ht⟩ := define_parts h
   have hp : parentOf env (typeDef d.parent l) = parentOf env d := rfl
   have hl : l = Level.mk env.length attrs d.equality.toList? (d.includeType.getD true) d.serialization d.params
       d.funcs := (List.cons.inj ht).1
@@ -371,9 +378,20 @@ theorem define_typeDef {env : List OType} {d : Def} {l : Level} {p : OType} (hnd
   unfold define
   simp only [hp, hpars, hfns, hfn', hpar, typeDef_noBoth hnames d.parent l hla, Bool.false_eq_true, if_false,
     typeDef_decls hattrs (by rw [← hla]; exact hu) d.parent l hla, heqs, hsers, hinc]
-  rw [checkEquality_congr hlook, heq]
+  have hisfn : ∀ n, isFnName (reorder attrs) d.funcs (parentOf env d) n = isFnName attrs d.funcs (parentOf env d) n := by
+    intro n
+    unfold isFnName
+    congr 2
+    rw [Bool.eq_iff_iff]
+    simp only [List.any_eq_true]
+    constructor
+    · rintro ⟨a, ha, hn⟩; exact ⟨a, mem_reorder.mp ha, hn⟩
+    · rintro ⟨a, ha, hn⟩; exact ⟨a, mem_reorder.mpr ha, hn⟩
+  rw [checkEqualityF_of (fun n hn => by rw [hisfn]; exact hnf n (List.mem_append.mpr (Or.inl hn))),
+    checkEquality_congr hlook, heq]
   simp only
-  rw [checkSerialization_congr hlook, hser]
+  rw [checkSerializationF_of (fun n hn => by rw [hisfn]; exact hnf n (List.mem_append.mpr (Or.inr hn))),
+    checkSerialization_congr hlook, hser]
   simp only [hl, hpp]
 
 /-! ### the re-created type lays out, constructs and reads like the original -/
